@@ -5,8 +5,8 @@ Lane `mem` (property C10): case = `M prealloc itemSizeSel op,op,…`
   byte j of the slice of the op with (expanded) index i is `(37 i + 11 j + 1) mod 256`.
 Observation:
   `isz=<itemSize> init=ok:<usage> <res>:<usage>:<arena len>:<vec len> … | <arena len> <first ≤8 bytes> <last ≤8 bytes> <byte sum mod 65521>`
-  or `isz=<itemSize> PANIC-prealloc`; a run stops at `PANIC-<site>`.
-The model side runs `MemSys.init (debug := true)` / `MemSys.run`, the functions the C10 theorems are about.
+  a run stops at `PANIC-<site>`.
+The model side runs `MemSys.init` / `MemSys.run`, the functions the C10 theorems are about.
 -/
 import LolHtml.Model.Memory
 
@@ -43,7 +43,6 @@ def expand : List (Char × Nat) → Nat → Option (List Op)
     else none
 
 def panicTag : Panic → String
-  | .prealloc => "PANIC-prealloc"
   | .shiftRange => "PANIC-shift"
   | .drainRange => "PANIC-drain"
   | .usageOverflow => "PANIC-usage-overflow"
@@ -70,7 +69,7 @@ def run (line : String) : String :=
       match toks.bind (expand · 0) with
       | none => "bad-case"
       | some ops =>
-        match MemSys.init true M prealloc isz with
+        match MemSys.init M prealloc isz with
         | .panic pn => s!"isz={isz} {panicTag pn}"
         | .err _ _ => s!"isz={isz} init=err"
         | .ok s0 =>
